@@ -166,20 +166,20 @@ PROP = dict(
         dict(name="race-seq", pkg="c18", run="^TestC18_Sequential$", race=True, shards=GROUPS + EXTRA_CURVES + PLAIN_CURVES, env=RACE_ENV,
              checks=(15, 300), timeout=(1800, 5400), weight=7, tiers=("thorough",)),
         # the three remaining pairing curves: a change confined to one curve's generated copy must not be invisible
-        dict(name="seq-extra", pkg="c18", run="^TestC18_Sequential$", shards=EXTRA_CURVES, checks=(220, 8000), timeout=(1800, 5400), weight=5),
+        dict(name="seq-extra", pkg="c18", run="^TestC18_Sequential$", shards=EXTRA_CURVES, checks=(180, 8000), timeout=(1800, 5400), weight=5),
         dict(name="conc-extra", pkg="c18", run="^TestC18_Concurrent$", shards=EXTRA_CURVES, checks=(80, 3000), timeout=(1800, 5400), weight=5),
         dict(name="race-extra", pkg="c18", run="^TestC18_Concurrent$", race=True, shards=_race_extra_shards, env=NO_STRESS,
              checks=(30, 600), timeout=(1800, 5400), weight=9, tiers=("thorough",)),
         # the curves without pairing (plain.tmpl): cheap registries, every suite in quick with modest counts
-        dict(name="seq-plain", pkg="c18", run="^TestC18_Sequential$", shards=PLAIN_CURVES, checks=(600, 10000), timeout=(1800, 5400), weight=3),
+        dict(name="seq-plain", pkg="c18", run="^TestC18_Sequential$", shards=PLAIN_CURVES, checks=(450, 10000), timeout=(1800, 5400), weight=3),
         dict(name="conc-plain", pkg="c18", run="^TestC18_Concurrent$", shards=PLAIN_CURVES, checks=(250, 4000), timeout=(1800, 5400), weight=3),
         dict(name="race-plain", pkg="c18", run="^TestC18_Concurrent$", race=True, shards=PLAIN_CURVES, env=RACE_ENV,
              checks=(60, 2500), timeout=(1800, 5400), weight=6),
         dict(name="race-purego-plain", pkg="c18", run="^TestC18_Concurrent$", race=True, tags="purego", shards=PLAIN_CURVES,
              env=NO_STRESS, checks=(25, 800), timeout=(1800, 5400), weight=8),
         dict(name="conc", pkg="c18", run="^TestC18_Concurrent$", shards=GROUPS, checks=(300, 5000), timeout=(1800, 5400), weight=5),
-        dict(name="seq", pkg="c18", run="^TestC18_Sequential$", shards=FULL_CURVES + SMALL + ["misc"], checks=(1200, 20000), timeout=(1800, 5400), weight=4),
-        dict(name="seq-light", pkg="c18", run="^TestC18_Sequential$", shards=LIGHT_CURVES, checks=(550, 8000), timeout=(1800, 5400), weight=5),
+        dict(name="seq", pkg="c18", run="^TestC18_Sequential$", shards=FULL_CURVES + SMALL + ["misc"], checks=(1050, 20000), timeout=(1800, 5400), weight=4),
+        dict(name="seq-light", pkg="c18", run="^TestC18_Sequential$", shards=LIGHT_CURVES, checks=(480, 8000), timeout=(1800, 5400), weight=5),
         dict(name="firstuse", pkg="c18", run="^TestC18_FirstUse$", race=True, rapid=False, shards=_first_use_shards, env=RACE_ENV,
              timeout=(1200, 1800), weight=2),
         dict(name="regress", pkg="c18", run="^TestC18_Regress", rapid=False, weight=1),
